@@ -125,8 +125,8 @@ impl Prop for C16 {
 
     fn stages(&self, tier: Tier) -> Vec<Stage<Case>> {
         vec![
-            stage("big-files", (big_file(tier), gen::history(200)).prop_map(|(spec, ops)| Case::History { spec, ops }), tier.pick(320, 10_000)).shrink(100),
-            stage("general-files", (gen::file_spec_light(tier), gen::history(120)).prop_map(|(spec, ops)| Case::History { spec, ops }), tier.pick(600, 10_000)).shrink(200),
+            stage("big-files", (big_file(tier), gen::history(200)).prop_map(|(spec, ops)| Case::History { spec, ops }), tier.pick(800, 12_000)).shrink(100),
+            stage("general-files", (gen::file_spec_light(tier), gen::history(120)).prop_map(|(spec, ops)| Case::History { spec, ops }), tier.pick(1600, 20_000)).shrink(200),
             stage("explore", explore_case(tier.pick(12, 20)).prop_map(Case::Explore), tier.pick(48, 1000)).shrink(30),
         ]
     }
